@@ -1895,6 +1895,14 @@ func makeInterfaceArshaler(t reflect.Type) *arshaler {
 				return newInvalidFormatError(dec, t)
 			}
 		}
+		if !va.IsNil() {
+			// Prevent unbounded recursion if the interface holds a pointer
+			// to itself (e.g., var x any; x = &x). Like v1 "encoding/json",
+			// treat it as a nil interface and store the decoded value.
+			if e := va.Elem(); e.Kind() == reflect.Pointer && !e.IsNil() && e.UnsafePointer() == va.Addr().UnsafePointer() {
+				va.SetZero()
+			}
+		}
 		if uo.Flags.Get(jsonflags.MergeWithLegacySemantics) && !va.IsNil() {
 			// Legacy merge behavior is difficult to explain.
 			// In general, it only merges for non-nil pointer kinds.
